@@ -4,7 +4,7 @@ from hypothesis import strategies as st
 
 from tv.core import Result
 from tv.cyc import Harness, history, step
-from tv.memx import ILVT_KINDS, SHAPES, apply_mask, granules, mem_class, narrow, pick_key
+from tv.memx import ELEM_SHAPES, from_data, gran_arg, make_shape, to_data, ILVT_KINDS, SHAPES, apply_mask, granules, mem_class, narrow, pick_key
 
 ID = "C21"
 ENGINE = "B"
@@ -43,6 +43,9 @@ def strategy(draw, tier="quick"):
     nw = draw(st.integers(1, 2))
     depth = draw(st.integers(2, 9))
     width, gran = draw(st.sampled_from(SHAPES))
+    elem = None
+    if draw(st.integers(0, 3)) == 0:
+        width, gran, elem = draw(st.sampled_from(ELEM_SHAPES))
     kinds = ["Memory", "Memory", "Memory", "XORILVT", "OneHotILVT"]
     if nw == 1:
         kinds += ["MultiRead", "MultiRead"]
@@ -66,6 +69,7 @@ def strategy(draw, tier="quick"):
         "depth": depth,
         "width": width,
         "gran": gran,
+        "elem": elem,
         "mtype": mtype,
         "history": hist,
     }
@@ -75,6 +79,7 @@ KEY_F4 = "MemoryBank:granular+read_on_resp"
 KEY_F3 = "ILVT:width<addrbits+transparent"
 KEY_GT = "ILVT:granular+transparent"
 KEY_GM = "ILVT:granular+multiwrite"
+KEY_AS = "Multiport:array-shape+granularity"  # transactron's multiport memories flatten the shape: granularity counts bits
 KEY_ORDER = [KEY_GT, KEY_GM, KEY_F3, KEY_F4]
 
 
@@ -83,6 +88,7 @@ def run_case(case) -> Result:
 
     transparent, ror, nr, nw = case["transparent"], case["ror"], case["nr"], case["nw"]
     depth, width, gran, mtype = case["depth"], case["width"], case["gran"], case["mtype"]
+    elem = case.get("elem")
     g = granules(width, gran)
     full = (1 << g) - 1
     ilvt = mtype in ILVT_KINDS
@@ -90,12 +96,14 @@ def run_case(case) -> Result:
     res = Result(labels=[mtype, ("T" if transparent else "N") + ("R" if ror else "Q")])
     if gran is not None:
         res.labels.append("gran" if g >= 2 else "gran1")
+    if elem is not None:
+        res.labels.append("struct_shape" if elem == "struct" else "array_shape")
 
     h = Harness(
         lambda: MemoryBank(
-            shape=width,
+            shape=make_shape(width, elem),
             depth=depth,
-            granularity=gran,
+            granularity=gran_arg(gran, elem),
             transparent=transparent,
             read_on_resp=ror,
             read_ports=nr,
@@ -139,7 +147,7 @@ def run_case(case) -> Result:
                 if gran is None:
                     mask = 1
                 writes[j] = (addr, data, mask)
-                args = {"addr": addr, "data": data}
+                args = {"addr": addr, "data": to_data(data, width, elem)}
                 if gran is not None:
                     args["mask"] = mask
                 reqs[f"write{j}"] = args
@@ -226,9 +234,12 @@ def run_case(case) -> Result:
                     e = pend[i][0]
                     a = e["addr"]
                     exp = (newmem[a] if transparent else mem[a]) if ror else e["val"]
-                    got = results[rs]["data"]
+                    got = from_data(results[rs]["data"], width, elem)
                     if got != exp:
-                        vkey = pick_key(ID, [k for k in KEY_ORDER if k in e["taints"]])
+                        cands = [k for k in KEY_ORDER if k in e["taints"]]
+                        if isinstance(elem, int) and gran is not None and mtype != "Memory":
+                            cands.insert(0, KEY_AS)  # the whole configuration is affected (write masks misread)
+                        vkey = pick_key(ID, cands)
                         res.labels.append("mismatch:" + (vkey or "unattributed"))
                         return res.fail(
                             f"MemoryBank({mtype}, depth={depth}, width={width}, gran={gran}, "
